@@ -23,11 +23,11 @@ done
 for c in harness/lib*.c; do
   [ -e "$c" ] || continue
   so=build/harness/$(basename "$c" .c).so
-  gcc -O1 -g -fPIC -shared -o "$so" "$c" -ldl -lpthread
+  gcc -O1 -g -fPIC -shared -Iharness -o "$so" "$c" -ldl -lpthread
 done
 for c in harness/tool_*.c; do
   [ -e "$c" ] || continue
-  gcc -O1 -g -o build/harness/$(basename "$c" .c) "$c" -lpthread -ldl
+  gcc -O1 -g -rdynamic -Iharness -o build/harness/$(basename "$c" .c) "$c" -lpthread -ldl -lutil
 done
 # hygiene: nothing admitted, no axioms of our own
 if grep -rnE '\b(Admitted|admit|Axiom|Parameter|Conjecture|Unset Guard|bypass_check)\b' coq/theories coq/props coq/extract --include=*.v | grep -v '^\S*:[0-9]*:\s*(\*' ; then
